@@ -97,4 +97,3 @@ func readBody(r io.Reader, length int) ([]byte, error) {
 	}
 	return body, err
 }
-
